@@ -263,6 +263,59 @@ theorem mount_inv {s : State} (h : Inv s) (b : Bk) (path : Name) (map : Option M
       | exact hinv2
       | (apply insertMountLocked_inv hinv2 hvac2 hne hlt; assumption)
 
+/-- the four ways a `mount` can end, as far as the state goes -/
+theorem mount_cases (s : State) (hn : s.nextSuper < 256) (b : Bk) (path : Name) (map : Option Map) :
+    (s.mount b path map).1 = s ∨
+    (∃ next, next < 256 ∧ (s.mount b path map).1 = { s with nextSuper := next }) ∨
+    (∃ next idx, next < 256 ∧ idx ≠ 0 ∧ idx < 256 ∧ s.supers idx = none ∧
+        ((s.mount b path map).1 = { s with nextSuper := next, mountMaps := upd s.mountMaps idx map } ∨
+         ∃ s3 r, State.insertMountLocked { s with nextSuper := next, mountMaps := upd s.mountMaps idx map } b idx path = some (s3, r) ∧
+           (s.mount b path map).1 = s3 ∧ ((s.mount b path map).2.1 = .mounted idx ↔ r = .ok ()))) := by
+  have ha := allocate_spec s hn
+  obtain ⟨next, r, hal⟩ := allocate_eq s
+  rw [hal] at ha
+  obtain ⟨ha1, _, _, ha4, _⟩ := ha
+  simp only at ha1 ha4
+  unfold State.mount
+  cases hme : b.mountErr with
+  | some e => exact Or.inl rfl
+  | none =>
+    dsimp only
+    by_cases hmax : b.maxIno > VFS_MAX_INO
+    · rw [if_pos hmax]; exact Or.inl rfl
+    · rw [if_neg hmax]
+      by_cases hie : s.initialized = true ∧ b.ie ≠ 0
+      · rw [if_pos hie]; exact Or.inl rfl
+      · rw [if_neg hie, hal]
+        cases r with
+        | none => exact Or.inr (Or.inl ⟨next, ha1, rfl⟩)
+        | some idx =>
+          obtain ⟨hne, hlt, hvac⟩ := ha4 idx rfl
+          refine Or.inr (Or.inr ⟨next, idx, ha1, hne, hlt, hvac, ?_⟩)
+          dsimp only
+          generalize hins : State.insertMountLocked _ b idx path = ins
+          cases ins with
+          | none => exact Or.inl rfl
+          | some x =>
+            obtain ⟨s3, er⟩ := x
+            refine Or.inr ⟨s3, er, rfl, ?_⟩
+            cases er with
+            | error n => simp
+            | ok u => simp
+
+/-- the two ways a `umount` can end, as far as the state goes -/
+theorem umount_cases (s : State) (path : Name) :
+    (s.umount path).1 = s ∨
+    ∃ inode m pseudo, s.mnts inode = some m ∧
+      (s.umount path).1 = { s with pseudo := pseudo, mnts := upd s.mnts inode none,
+                                   supers := upd s.supers m.idx none, mountMaps := upd s.mountMaps m.idx none } := by
+  unfold State.umount
+  dsimp only
+  repeat' split
+  all_goals first
+    | exact Or.inl rfl
+    | (refine Or.inr ⟨_, _, _, ?_, rfl⟩; assumption)
+
 theorem umount_inv {s : State} (h : Inv s) (path : Name) : Inv (s.umount path).1 := by
   unfold State.umount
   dsimp only
